@@ -1,5 +1,5 @@
 (* C19 — proofs about the anonymiser model (Plugins/Anon.v). *)
-From Coq Require Import List NArith Bool Lia.
+From Coq Require Import List NArith Bool Lia Arith PeanoNat.
 From AdltV Require Import Base.Res Base.MachInt Plugins.Chain Plugins.ChainProofs Plugins.Anon.
 Import ListNotations.
 Open Scope N_scope.
@@ -204,6 +204,15 @@ Proof.
   unfold alookup. induction t as [|[k' v] r IH]; cbn; [auto|].
   destruct (N.eqb k k') eqn:E; [discriminate|]. apply N.eqb_neq in E.
   intros H [H1|H1]; [congruence|exact (IH H H1)].
+Qed.
+
+Lemma NoDup_app_single {A} (l : list A) x : NoDup l -> ~ In x l -> NoDup (l ++ [x]).
+Proof.
+  induction l as [|y l IH]; cbn; intros ND Hn.
+  - constructor; [auto|constructor].
+  - inversion ND; subst. constructor.
+    + rewrite in_app_iff. cbn. intros [H|[H|[]]]; [contradiction|subst; apply Hn; left; reflexivity].
+    + apply IH; [assumption|]. intros H; apply Hn; right; exact H.
 Qed.
 
 (* entry number i (from 0) carries pseudonym number i + 1 *)
